@@ -19,17 +19,62 @@ import (
 var wordsPool = []string{"alpha", "beta", "gamma", "delta", "x1", "hello", "foo_bar", "a-b", "Zed", "42"}
 var filePool = []string{"a.txt", "b.txt", "c.txt", "sub/d.txt", "sub/e.txt", "out.txt", "g1", "deep/er/f.txt"}
 var dirPool = []string{"sub", "dir1", "dir2", "deep/er", "sub/inner"}
-var trueConds = []string{"linux", "unix", "!windows", "!darwin", "exec:" + helperName, "!exec:nosuchprog-verif", "gc", "!gccgo", "go1.1", "!go1.99"}
-var falseConds = []string{"windows", "!linux", "darwin", "!unix", "exec:nosuchprog-verif", "gccgo", "!gc", "go1.99"}
+// conditions that hold / do not hold on this host, by class (go1.N, GOOS, GOARCH, the rest): the
+// values are the independent reading of doc.go (conds.go), never the implementation's
+var trueByClass, falseByClass [4][]string
+var trueConds, falseConds []string
+
+func condClass(name string) int {
+	n := strings.TrimPrefix(name, "!")
+	switch {
+	case goVersionName.MatchString(n):
+		return 0
+	case inList(docGOOS, n):
+		return 1
+	case inList(docGOARCH, n):
+		return 2
+	}
+	return 3
+}
+
+// initConds is called once the flags are parsed (testing.Short needs that)
+func initConds() {
+	t, f := condPools()
+	t = append(t, "exec:"+helperName, "!exec:nosuchprog-verif")
+	f = append(f, "exec:nosuchprog-verif", "!exec:"+helperName)
+	for _, c := range t {
+		trueByClass[condClass(c)] = append(trueByClass[condClass(c)], c)
+	}
+	for _, c := range f {
+		falseByClass[condClass(c)] = append(falseByClass[condClass(c)], c)
+	}
+	trueConds, falseConds = t, f
+}
+
+// sampleConds draws n conditions of the wanted truth value, the classes equally likely
+func sampleConds(r *common.RNG, want bool, n int) []string {
+	var out []string
+	for len(out) < n {
+		k := r.Intn(4)
+		pool := falseByClass[k]
+		if want {
+			pool = trueByClass[k]
+		}
+		if len(pool) > 0 {
+			out = append(out, pick(r, pool))
+		}
+	}
+	return out
+}
 
 func pick(r *common.RNG, xs []string) string { return xs[r.Intn(len(xs))] }
 
 // pickIdx: mostly the uniform draw (index 0), sometimes the guard and -count templates
-func pickIdx(r *common.RNG) int {
-	if r.Chance(4, 5) {
+func pickIdx(r *common.RNG, n int) int {
+	if r.Chance(3, 4) {
 		return 0
 	}
-	return 1 + r.Intn(5)
+	return 1 + r.Intn(n-1)
 }
 
 func sortedKeys[T any](m map[string]T) []string {
@@ -195,7 +240,73 @@ func (x *genCtx) guards(allTrue bool) string {
 func (x *genCtx) okLine() string {
 	r, g := x.r, x.g
 	h := helperName
-	switch []int{r.Intn(34), 27, 28, 4, 35, 36}[pickIdx(r)] {
+	switch []int{r.Intn(34), 27, 28, 4, 35, 36, 37, 38, 39}[pickIdx(r, 9)] {
+	case 37:
+		// a registered command that RETURNS its status (RunMain): what counts is the status the
+		// operating system reports, the returned integer modulo 256
+		zero := pick(r, []string{"0", "256", "-256", "512", "1024", "-0"})
+		nonzero := pick(r, []string{"-1", "-2", "-255", "-257", "255", "257", "1", "1000", "-1000", "300", "65535", "-128"})
+		direct := !x.c.Ree && !x.c.NoMain
+		switch k := r.Intn(8); {
+		case k == 0:
+			return fmt.Sprintf("exec %s ret %s", h, zero)
+		case k == 1:
+			return fmt.Sprintf("! exec %s ret %s", h, nonzero)
+		case k == 2 && direct:
+			return fmt.Sprintf("! %s ret %s", h, nonzero)
+		case k == 3 && direct:
+			return fmt.Sprintf("%s ret %s", h, zero)
+		case k == 4:
+			return fmt.Sprintf("! exec %s ret %s &\nwait", h, nonzero)
+		case k == 5:
+			return fmt.Sprintf("! exec %s ret %s &r%d&\nexec %s ret %s &z%d&\nwait r%d\nwait z%d", h, nonzero, x.n, h, zero, x.n, x.n, x.n)
+		case k == 6:
+			return fmt.Sprintf("[%s] ! exec %s ret %s", pick(r, x.cond.trueC), h, nonzero)
+		}
+		return fmt.Sprintf("! exec %s ret %s", h, nonzero)
+	case 38:
+		// a program that cannot be STARTED is still "the next exec command": the input set with
+		// stdin is consumed by it and the output of the previous command is gone
+		var prep, prog string
+		switch r.Intn(6) {
+		case 0:
+			prep, prog = fmt.Sprintf("exec %s write ne%d.txt not a program", h, x.n), fmt.Sprintf("./ne%d.txt", x.n)
+		case 1:
+			prep, prog = fmt.Sprintf("mkdir xd%d", x.n), fmt.Sprintf("./xd%d", x.n)
+		case 2:
+			prep = fmt.Sprintf("exec %s write sb%d.sh '#!/nonexistent-verif/sh'\nchmod 755 sb%d.sh", h, x.n, x.n)
+			prog = fmt.Sprintf("./sb%d.sh", x.n)
+		case 3:
+			prep, prog = "", fmt.Sprintf("./nothere%d", x.n)
+		case 4:
+			prep = fmt.Sprintf("exec %s write ne%d.txt not a program\nchmod 755 ne%d.txt", h, x.n, x.n)
+			prog = "$WORK" + g.cwd[len(absWork):] + fmt.Sprintf("/ne%d.txt", x.n)
+		case 5:
+			prep, prog = fmt.Sprintf("mkdir xd%d\nexec %s write xd%d/inner.txt text", x.n, h, x.n), fmt.Sprintf("xd%d/inner.txt", x.n)
+		}
+		src := fmt.Sprintf("exec %s write in%d.txt pending input %d", h, x.n, x.n)
+		bg := ""
+		if r.Chance(1, 4) {
+			bg = " &"
+		}
+		lines := []string{src}
+		if prep != "" {
+			lines = append(lines, prep)
+		}
+		lines = append(lines, fmt.Sprintf("exec %s echo previous output", h), fmt.Sprintf("stdin in%d.txt", x.n), "! exec "+prog+bg)
+		if bg == "" && r.Chance(1, 2) {
+			lines = append(lines, "! stdout .", "! stderr .")
+		}
+		lines = append(lines, fmt.Sprintf("exec %s cat", h), "! stdout .", fmt.Sprintf("cp stdout after%d.txt", x.n))
+		return strings.Join(lines, "\n")
+	case 39:
+		// every operand counts
+		f1, ok1 := x.someFile()
+		f2, ok2 := x.someFile()
+		if ok1 && ok2 && r.Chance(1, 2) {
+			return "exists " + f1 + " " + f2 + pick(r, []string{"", " $WORK"})
+		}
+		return "! exists nofile.txt nodir/x nofile2.txt"
 	case 0, 1:
 		return fmt.Sprintf("exec %s echo %s %s", h, pick(r, wordsPool), pick(r, wordsPool))
 	case 2:
@@ -403,7 +514,41 @@ func (x *genCtx) failLine() string {
 	r, g := x.r, x.g
 	h := helperName
 	f, hasF := x.someFile()
-	switch []int{r.Intn(30), 9, 15, 30, 31, 31}[pickIdx(r)] {
+	switch []int{r.Intn(30), 9, 15, 30, 31, 31, 32, 33, 34}[pickIdx(r, 9)] {
+	case 32:
+		// the operand that breaks the demand is not the first one
+		if hasF {
+			f2, _ := x.someFile()
+			switch r.Intn(4) {
+			case 0:
+				return "! exists nofile.txt " + f
+			case 1:
+				return "! exists nofile.txt nodir/x " + f + " nofile2.txt"
+			case 2:
+				return "exists " + f + " nofile.txt"
+			}
+			return "exists " + f + " " + f2 + " nofile.txt"
+		}
+		return "exists $WORK nofile.txt"
+	case 33:
+		// a returned status that is not a multiple of 256 is a failure, negative ones included
+		nonzero := pick(r, []string{"-1", "-2", "-255", "-257", "255", "257", "1", "1000", "-1000", "-128"})
+		zero := pick(r, []string{"0", "256", "-256", "512"})
+		direct := !x.c.Ree && !x.c.NoMain
+		switch k := r.Intn(5); {
+		case k == 0:
+			return fmt.Sprintf("exec %s ret %s", h, nonzero)
+		case k == 1 && direct:
+			return fmt.Sprintf("%s ret %s", h, nonzero)
+		case k == 2:
+			return fmt.Sprintf("! exec %s ret %s", h, zero)
+		case k == 3 && direct:
+			return fmt.Sprintf("! %s ret %s", h, zero)
+		}
+		return fmt.Sprintf("exec %s ret %s", h, nonzero)
+	case 34:
+		// a program that cannot be started, without "!"
+		return pick(r, []string{"exec ./nothere-verif", "exec $WORK", "exec ./nothere-verif arg &", "exec $WORK/.tmp"})
 	case 0:
 		return "exists nofile.txt"
 	case 1:
@@ -437,7 +582,7 @@ func (x *genCtx) failLine() string {
 			return "! stdout " + q(rePat(r, x.outWord(g.out)))
 		}
 	case 12:
-		if !x.c.HasCond {
+		if !x.c.HasCond && r.Chance(1, 2) {
 			return "[nosuchcond] exists $WORK"
 		}
 		if len(x.cond.errC) > 0 {
@@ -536,7 +681,13 @@ func (x *genCtx) failLine() string {
 // failGroup: a failing line that needs lines in front of it
 func (x *genCtx) failGroup() string {
 	h := helperName
-	switch x.r.Intn(4) {
+	switch x.r.Intn(7) {
+	case 4:
+		return fmt.Sprintf("exec %s ret %s &\nwait", h, pick(x.r, []string{"-1", "-3", "255", "-255", "1"}))
+	case 5:
+		return fmt.Sprintf("exec %s ret %s &n%d&\nwait n%d", h, pick(x.r, []string{"-1", "-2", "257", "-256000"}), x.n, x.n)
+	case 6:
+		return fmt.Sprintf("! exec %s ret %s &\nwait", h, pick(x.r, []string{"0", "256", "-256"}))
 	case 0:
 		return fmt.Sprintf("exec %s sleep &\nskip", h)
 	case 1:
@@ -594,7 +745,7 @@ func (x *genCtx) wildLine() string {
 	case 18:
 		return pick(r, []string{"wait", "wait n1", "wait n2", "kill", "kill n1", "kill -INT", "kill -KILL n2", "kill -INT n1", "kill n1 n2"})
 	case 19:
-		return "[" + pick(r, append(append([]string{"foo", "!bar", "errc", "baz", " linux ", "! windows", "", "!", "exec:" + h}, trueConds...), falseConds...)) + "] " + x.okLineFlat()
+		return "[" + pick(r, append(append(append([]string{"foo", "!bar", "errc", "baz", " linux ", "! windows", "", "!", "exec:" + h, " go1.9", "!go1.100 "}, sampleConds(r, true, 6)...), sampleConds(r, false, 6)...), nearCondNames...)) + "] " + x.okLineFlat()
 	case 20:
 		return "! " + x.okLineFlat()
 	case 21:
@@ -635,8 +786,11 @@ func genParams(r *common.RNG, c *Case, cond *condInfo) {
 	c.Uniq = r.Chance(1, 5)
 	c.Cmds = r.Chance(3, 5)
 	c.Shadow = c.Cmds && r.Chance(1, 2)
-	cond.trueC = append([]string{}, trueConds...)
-	cond.falseC = append([]string{}, falseConds...)
+	cond.trueC = sampleConds(r, true, 14)
+	cond.falseC = sampleConds(r, false, 14)
+	// names that look like predefined conditions and are not: unknown without Params.Condition
+	// (the line fails), a question for Params.Condition with it
+	near := []string{pick(r, nearCondNames), pick(r, nearCondNames)}
 	if r.Chance(1, 2) {
 		c.HasCond = true
 		c.CondDflt = pick(r, []string{"t", "f", "e"})
@@ -654,18 +808,91 @@ func genParams(r *common.RNG, c *Case, cond *condInfo) {
 		default:
 			cond.errC = append(cond.errC, "baz")
 		}
+		for _, n := range near {
+			switch c.CondDflt {
+			case "t":
+				cond.trueC = append(cond.trueC, n)
+				cond.falseC = append(cond.falseC, "!"+n)
+			case "f":
+				cond.falseC = append(cond.falseC, n)
+				cond.trueC = append(cond.trueC, "!"+n)
+			default:
+				cond.errC = append(cond.errC, n, "!"+n)
+			}
+		}
+	} else {
+		cond.errC = append(cond.errC, near...) // unknown conditions
+		cond.errC = append(cond.errC, "!"+near[0])
 	}
 }
+
+// spellName: another way of writing the entry name `loc` (a clean path relative to $WORK) that
+// setup must unpack at the same place: through the initial variables ($WORK/..., ${/}, $exe) or
+// not canonically (./x, a//b, a/./b, a/../a/b)
+func spellName(r *common.RNG, loc string) string {
+	dir, file := "", loc
+	if i := strings.LastIndex(loc, "/"); i >= 0 {
+		dir, file = loc[:i], loc[i+1:]
+	}
+	switch r.Intn(11) {
+	case 0:
+		return "$WORK/" + loc
+	case 1:
+		return "${WORK}/" + loc
+	case 2:
+		return "./" + loc
+	case 3:
+		return strings.ReplaceAll(loc, "/", "${/}") + "$exe"
+	case 4:
+		if dir != "" {
+			return dir + "//" + file
+		}
+		return ".//" + file
+	case 5:
+		if dir != "" {
+			return dir + "/./" + file
+		}
+		return "././" + file
+	case 6:
+		if dir != "" {
+			return dir + "/../" + dir[strings.LastIndex(dir, "/")+1:] + "/" + file
+		}
+		return "zz/../" + file
+	case 7:
+		return "$WORK${/}" + loc
+	case 8:
+		return loc + "${exe}"
+	}
+	return loc
+}
+
+// names that lead out of the work directory: setup must refuse them (the locations are chosen so
+// that an implementation that does not would write below the case directory or nowhere)
+var escapingNames = []string{"../esc.txt", "sub/../../esc2.txt", "$WORK/../esc3.txt", "..", "../../esc4/x", "$devnull/x", "/dev/null/verif-x", "a/../..", "$WORK/../script-s2/x"}
 
 func genFiles(r *common.RNG, c *Case) {
 	n := r.Intn(4)
 	used := map[string]bool{}
+	respell := r.Chance(1, 3)
+	defer func() {
+		if len(c.Files) > 0 && r.Chance(1, 14) {
+			// one entry whose name leaves the work directory, anywhere in the archive
+			i := r.Intn(len(c.Files) + 1)
+			esc := AFile{Name: pick(r, escapingNames), Data: "outside\n"}
+			c.Files = append(c.Files[:i:i], append([]AFile{esc}, c.Files[i:]...)...)
+		} else if r.Chance(1, 40) {
+			c.Files = append(c.Files, AFile{Name: pick(r, []string{".", "$WORK", "./", "$WORK/.tmp"}), Data: "a directory is in the way\n"})
+		}
+	}()
 	for i := 0; i < n; i++ {
 		name := pick(r, filePool[:6])
 		if used[name] && !r.Chance(1, 6) {
 			continue
 		}
 		used[name] = true
+		if respell && r.Chance(2, 3) {
+			name = spellName(r, name)
+		}
 		var b strings.Builder
 		for j, m := 0, 1+r.Intn(3); j < m; j++ {
 			b.WriteString(pick(r, wordsPool) + " " + pick(r, wordsPool) + "\n")
@@ -700,7 +927,9 @@ func genConstructive(r *common.RNG, id string, cli bool) (*Case, *Planted) {
 	if cli {
 		// what cmd/testscript offers: no Cmds, no Condition, no Main commands
 		*c = Case{ID: id, Kind: "cli", Coe: c.Coe, NoMain: true}
-		cond = condInfo{trueC: trueConds, falseC: falseConds}
+		// (the conditions of the whole universe, [short] and [net] included: cmd/testscript must
+		// answer them like RunT does; cli.go has hand-written scripts for those two as well)
+		cond = condInfo{trueC: sampleConds(r, true, 16), falseC: sampleConds(r, false, 16), errC: []string{pick(r, nearCondNames)}}
 	}
 	genFiles(r, c)
 	target := 1 + r.Intn(25)
@@ -813,7 +1042,8 @@ func genWild(r *common.RNG, id string) *Case {
 	c.Coe = r.Chance(4, 5) // so that most lines are reached
 	genFiles(r, c)
 	if r.Chance(1, 8) {
-		c.Files = append(c.Files, AFile{Name: pick(r, []string{"a.txt", "sub", "a.txt/x", "sub/d.txt", "${X}y", "q/../r.txt", ">.txt"}), Data: "dup\n"})
+		c.Files = append(c.Files, AFile{Name: pick(r, []string{"a.txt", "sub", "a.txt/x", "sub/d.txt", "${X}y", "q/../r.txt", ">.txt", "$WORK/a.txt", "./a.txt", "sub//d.txt",
+			"$WORK/sub/../c.txt", "../esc.txt", "$WORK/./w.txt", "sub/", "$X/y", "lnk$exe.txt", "$WORK", "a${/}b", "$TMPDIR/t.txt", "${WORK}x/y", "$WORK/../script-s/in.txt"}), Data: "dup\n"})
 	}
 	g := newGState()
 	for _, f := range c.Files {
